@@ -94,8 +94,15 @@ def _run_variant(args):
         # the variant is marked rule="ANALYSIS-ERROR"
         if v.kind == "break" and v.rule == "ANALYSIS-ERROR":
             return (v.name, v.kind, "ok", f"analysis-error as expected: {e}")
+        if v.kind == "quiet":
+            return (v.name, v.kind, "ok", f"no verdict (analysis error: {str(e)[:80]})")
         return (v.name, v.kind, "fail", f"analysis error: {e}")
     new = keys - base_keys
+    if v.kind == "quiet":
+        # a stored change that breaks ANOTHER property: this check must not raise an alarm on it (no verdict is acceptable)
+        if new:
+            return (v.name, v.kind, "fail", f"alarm on a change that does not break this property: {sorted(new)[:2]}")
+        return (v.name, v.kind, "ok", "silent" if not ctx.shortfalls else "no verdict (analysis error)")
     if v.kind == "break":
         if not new:
             return (v.name, v.kind, "fail", "no new violation reported")
@@ -110,7 +117,7 @@ def _run_variant(args):
 
 
 def run_selftest(prop: str, mod, base_ctx: Ctx, jobs: int = None, only: Optional[List[str]] = None) -> dict:
-    variants: List[V] = list(getattr(mod, "selftest")()) + regression_variants(prop)
+    variants: List[V] = list(getattr(mod, "selftest")()) + regression_variants(prop) + seed_variants(prop)
     if only:
         variants = [v for v in variants if v.name in only]
     base_keys = _viol_keys(base_ctx)
@@ -132,6 +139,8 @@ def run_selftest(prop: str, mod, base_ctx: Ctx, jobs: int = None, only: Optional
         "break_detected": sum(1 for r in res if r[1] == "break" and r[2] == "ok"),
         "twin_total": sum(1 for r in res if r[1] == "twin" and r[2] != "stale"),
         "twin_silent": sum(1 for r in res if r[1] == "twin" and r[2] == "ok"),
+        "seed_quiet_total": sum(1 for r in res if r[1] == "quiet" and r[2] != "stale"),
+        "seed_quiet_silent": sum(1 for r in res if r[1] == "quiet" and r[2] == "ok"),
         "failed": sum(1 for r in res if r[2] == "fail"),
         "failures": [f"{r[0]}: {r[3]}" for r in res if r[2] == "fail"],
         "stale_names": [r[0] for r in res if r[2] == "stale"],
@@ -216,6 +225,36 @@ def regression_variants(prop: str):
             continue
         first, rest = eds[0], tuple(eds[1:])
         out.append(V(f"regression-{pf[:4]}-{c}", first[0], first[1], first[2], kind="break", more=rest))
+    return out
+
+
+def seed_variants(prop: str, expected_only: bool = True):
+    """The stored seeded changes (seeded/<id>/patch.diff) as overlay variants. For the properties a change is recorded to
+    break (seeded/EXPECTED.json, the audited matrix of DESIGN section 10) the check must report it; for every other
+    property the check must stay quiet on it."""
+    import glob
+    import json
+
+    root = os.path.dirname(os.path.dirname(os.path.abspath(__file__)))
+    ep = os.path.join(root, "seeded", "EXPECTED.json")
+    if not os.path.exists(ep):
+        return []
+    with open(ep) as f:
+        exp = json.load(f)
+    out = []
+    for sid in sorted(exp):
+        e = exp[sid]
+        if prop in e.get("noverdict", []):
+            continue
+        pf = os.path.join(root, "seeded", sid, "patch.diff")
+        if not os.path.exists(pf):
+            continue
+        eds = edits_from_patch(pf, reverse=False)
+        if not eds:
+            continue
+        first, rest = eds[0], tuple(eds[1:])
+        kind = "break" if prop in e.get("fires", []) else "quiet"
+        out.append(V(f"seed-{sid}", first[0], first[1], first[2], kind=kind, more=rest))
     return out
 
 
